@@ -26,6 +26,8 @@ ENVS = {
     # controller sends a burst at once, then a frame every ~0.5 s: queued requests go out faster than a device
     # set-up round (3 s) lasts, so close() returns while set-up request tasks would still be alive
     "fast": ["F:f"] * 12 + ["A:537", "F:f"] * 40 + ["A:1037", "F:f"] * 200,
+    # silence for longer than READER_TIMEOUT first (a stalled read must have timed out by then), then a frame every ~1 s
+    "late": ["A:10037"] + ["A:1037", "F:f"] * 220,
     # nothing arrives any more (about 190 s of virtual time)
     "silent": ["A:4037", "A:10037", "A:10037", "A:21037", "A:21037", "A:41037", "A:41037", "A:41037"],
 }
@@ -43,6 +45,17 @@ BASES = [
     # sensor data seen, set-up in progress: close() at every point of the three request rounds (3 s each)
     (3, 1, [], ["C", "F:s:1:1", "A:1037", "F:f", "A:1037", "A:1037", "F:f", "A:1037", "F:p:69", "A:2037", "A:1037", "F:f", "A:1037", "A:1037"]),
     (2, 0, [], ["C", "F:p:69", "F:s:0:0", "F:f", "F:f", "A:2037", "F:f", "A:1537", "F:f", "A:2537", "F:f", "A:2537", "A:1037"]),
+    # the controller stalls in the middle of a frame (header complete, body not) with requests queued
+    (3, 1, [], ["C", "F:p:69", "Q:2", "A:2037", "S:9", "A:3037"]),
+    (3, 0, [], ["C", "F:p:69", "Q:1", "S:12", "A:1037"]),
+    (3, 1, [], ["C", "F:s:1:1", "A:1037", "S:8", "A:1037"]),
+    # wire-valid frames whose payload cannot be decoded (handle_frame raises): the consumers must survive them
+    (3, 1, [], ["C", "F:u", "F:u", "F:u", "F:p:69", "F:f", "Q:1", "F:u", "F:p:69"]),
+    (2, 1, [], ["C", "F:p:69", "F:u", "F:u", "F:p:69", "F:u", "F:f"]),
+    (1, 0, [], ["C", "F:u", "F:p:69", "Q:1", "F:p:69"]),
+    # frames from addresses that have no device class (ecoNET, broadcast) before the first frames of real devices
+    (3, 1, [], ["C", "F:o:86", "F:p:69", "F:o:0", "F:p:81", "F:f", "Q:1", "F:p:69"]),
+    (2, 0, [], ["C", "F:p:69", "F:o:0", "F:s:1:1", "F:o:86", "F:p:81"]),
 ]
 
 
@@ -85,15 +98,17 @@ def gated_items(tier):
 
 def gen(rng, tier):
     quick = tier == "quick"
-    bases = list(BASES) + [rand_base(rng) for _ in range(250 if quick else 900)]
+    bases = list(BASES) + [rand_base(rng) for _ in range(170 if quick else 800)]
     envs = list(ENVS)
     for bi, b in enumerate(bases):
         n = len(b[3])
         for k in range(0, n + 1):
-            if quick and bi >= len(BASES):
+            if any(e.startswith("S:") for e in b[3][:k]):
+                chosen = ["late", "silent"]  # nothing can be fed to a reader that holds half a frame
+            elif quick and bi >= len(BASES):
                 chosen = [envs[(k + bi) % len(envs)]]
             else:
-                chosen = envs
+                chosen = [e for e in envs if e != "late"]
             for env in chosen:
                 yield ("base" if bi < len(BASES) else "random") + ":" + env, with_close(b, k, env)
 
@@ -137,7 +152,11 @@ def judge(res, lab, h, segs, extras, info, m):
         no_progress = len(qs) < 9 or qs[-1] >= qs[-9]
         # the F1 match: a non-empty write queue and no producer progress, or a non-empty read queue with no live
         # consumer while nothing is connected (a connected protocol must have its consumers)
-        write_f1 = info["wq"] > 0 and no_progress
+        # (a silent controller must have been noticed: by now the protocol is disconnected, or losses are being handled
+        # periodically; a connected producer that sits there for longer than READER_TIMEOUT without any loss is not F1)
+        noticed = states[-1]["c"] == "0" or any("/wclose/" in x or "/open/" in x for x in segs[zpos + 1:])
+        long_enough = int(states[-1]["zt"]) > 2 * connspec.RT
+        write_f1 = info["wq"] > 0 and no_progress and (noticed or not long_enough)
         read_f1 = (info["rq"] or 0) > 0 and extras[-1]["classes"]["k"] == 0 and states[-1]["c"] == "0"
         starved = write_f1 or read_f1
         if drains:
